@@ -335,6 +335,7 @@ class Interp(object):
         self.nonneg = set()
         self.col_base = {}
         self.entry_writes = []
+        self.module_state = {}     # (module name, global name) -> value written through a `global` declaration
         self.label_alias = {}
         self.decided = {}
         self.str_methods = {}
@@ -834,6 +835,11 @@ class Interp(object):
         if isinstance(t, ast.Name):
             for c in self.loopctx:
                 c.setdefault('bound', set()).add(('name', t.id))
+            fr = self.frames[-1] if self.frames else None
+            if fr is not None and t.id in getattr(fr, 'declared_globals', ()):
+                self.module_state[(fr.module.name, t.id)] = v
+                self.event('global-write', '%s.%s' % (fr.module.name, t.id), st)
+                return
             env.set(t.id, v)
         elif isinstance(t, (ast.Tuple, ast.List)):
             items = self.unpack(v, len(t.elts), st)
@@ -915,6 +921,7 @@ class Interp(object):
         if isinstance(cur, Arr):
             t = self.arith(op, cur, rhs, node)
             cur.t = t
+            self.note_dtype_cast(cur, node, 'in-place ' + op)
             if not cur.fresh:
                 self.event('write', cur.origin, node, via='inplace', how=op)
             return cur
@@ -1166,7 +1173,11 @@ class Interp(object):
         raise Unsupported('del', st)
 
     def st_Global(self, st, env):
-        raise Unsupported('global', st)
+        # module-level mutable state: reads and writes of these names go to the interpreter-wide module store
+        fr = self.frames[-1]
+        if not hasattr(fr, 'declared_globals'):
+            fr.declared_globals = set()
+        fr.declared_globals |= set(st.names)
 
     # ---- expressions ----------------------------------------------------------------------------
     def eval(self, node, env):
@@ -1196,10 +1207,14 @@ class Interp(object):
         raise Unsupported('constant %r' % (v,), node)
 
     def ev_Name(self, node, env):
+        fr = self.frames[-1]
+        if node.id in getattr(fr, 'declared_globals', ()) or env.get(node.id) is None:
+            gv = self.module_state.get((fr.module.name, node.id))
+            if gv is not None:
+                return gv
         v = env.get(node.id)
         if v is not None:
             return v
-        fr = self.frames[-1]
         r = self.prog.resolve_name_in_module(fr.module, node)
         if r is not None:
             return self.wrap_resolved(r, node)
@@ -1729,7 +1744,18 @@ class Interp(object):
             raise Unsupported('subscript of unknown value (%s)' % o.why, node)
         raise Unsupported('subscript of %r' % (o,), node)
 
+    def note_dtype_cast(self, o, node, via):
+        """a store into an array that was allocated with np.*_like(<input array>) and no dtype: the value is cast to the
+        dtype of that input (an integer grid truncates floating-point values)"""
+        dl = getattr(o, 'dtype_like', None)
+        while isinstance(dl, View):
+            dl = dl.base
+        if isinstance(dl, Arr) and not dl.fresh:
+            self.event('dtype-cast', dl.origin, node, via=via)
+
     def set_item(self, o, idx, v, node):
+        if isinstance(o, Arr):
+            self.note_dtype_cast(o, node, 'item store')
         if isinstance(o, Obj):
             m = self.find_method(o, '__setitem__')
             if m is None:
